@@ -161,9 +161,17 @@ def obligations_for(prop, ur):
                 continue
             fid = f['id']
             if f.get('inherits') and prop in f['props']:
-                st = 'failed' if fid in inherited_failed else 'discharged'
-                obs.append({'id': fid + '#trait-contract', 'kind': 'postcondition(inherited)', 'fn': fid, 'status': st,
-                            'text': 'transducer contract of the shim trait method (DESIGN 3.3)', 'diag': inherited_failed.get(fid)})
+                # inherited trait clauses: a failing clause counts for this property if the clause is stated for it
+                # (or if the clause could not be identified)
+                bad = [c for c in cl['failed_clauses'] if c.get('inherited') and c.get('fn') == fid
+                       and (not c.get('only') or prop in (c.get('iprops') or []))]
+                if bad:
+                    for c in bad:
+                        obs.append({'id': c['id'], 'kind': 'postcondition(inherited)', 'fn': fid, 'status': 'failed',
+                                    'text': 'trait contract %s in this implementation' % (c.get('trait_clause') or ''), 'diag': c})
+                else:
+                    obs.append({'id': fid + '#trait-contract', 'kind': 'postcondition(inherited)', 'fn': fid, 'status': 'discharged',
+                                'text': 'transducer contract of the shim trait method (DESIGN 3.3)', 'diag': None})
             st = 'failed' if fid in safety_failed else 'discharged'
             obs.append({'id': fid + '#safe', 'kind': 'safety', 'fn': fid, 'status': st,
                         'text': 'callee preconditions, index bounds, arithmetic overflow, unwrap',
